@@ -58,7 +58,7 @@ C08Op gen_op(bool thread0, int nobj)
 {
   C08Op op;
   static const uint8_t kinds[] = {C08_COPY_CTOR, C08_COPY_CTOR, C08_MOVE_CTOR, C08_CONV_CTOR, C08_RAW_CTOR, C08_COPY_ASSIGN, C08_COPY_ASSIGN,
-                                  C08_MOVE_ASSIGN, C08_RAW_ASSIGN, C08_DESTROY, C08_DESTROY, C08_INCDEC, C08_COMPARE, C08_PAYLOAD, C08_DSLOT_SET};
+                                  C08_MOVE_ASSIGN, C08_RAW_ASSIGN, C08_DESTROY, C08_DESTROY, C08_INCDEC, C08_COMPARE, C08_PAYLOAD, C08_DSLOT_SET, C08_COMPARE_MIXED};
   op.kind = kinds[sim_plan(sizeof kinds)];
   op.dst = (uint8_t)sim_plan(C08_SLOTS);
   unsigned sk = sim_plan(thread0 ? 4 : 6);
@@ -282,6 +282,7 @@ void c08_pre(int tid, const C08Op *op, int src_obj)
     m.expect_dst[tid] = ds.obj;
     break;
   case C08_COMPARE:
+  case C08_COMPARE_MIXED:
     m.expect_dst[tid] = ds.obj;
     m.cmp_same[tid] = ds.obj == src_obj ? 1 : 0;
     break;
@@ -306,14 +307,14 @@ void c08_post(int tid, const C08Op *op, int dst_after, int src_after, int eq, in
              dst_after, m.expect_dst[tid]);
   if (m.expect_src_after[tid] != -3 && src_after != m.expect_src_after[tid])
     sim_fail("C08:moved-from-handle-not-empty", "thread %d op %d: source handle points at object %d after a move", tid, op->kind, src_after);
-  if (op->kind == C08_COMPARE) {
+  if (op->kind == C08_COMPARE || op->kind == C08_COMPARE_MIXED) {
     int same = m.cmp_same[tid];
     if (eq != same || ne != !same)
-      sim_fail("C08:comparison-not-pointer-equality", "handles pointing at %s objects: operator== gave %d, operator!= gave %d",
-               same ? "the same" : "different", eq, ne);
-    if (same && (lt || gt))
+      sim_fail("C08:comparison-not-pointer-equality", "handles %spointing at %s objects: operator== gave %d, operator!= gave %d",
+               op->kind == C08_COMPARE_MIXED ? "(one to the base type, one to the derived type) " : "", same ? "the same" : "different", eq, ne);
+    if (op->kind == C08_COMPARE && same && (lt || gt))
       sim_fail("C08:comparison-not-pointer-equality", "operator< true for handles to the same object");
-    if (!same && lt == gt)
+    if (op->kind == C08_COMPARE && !same && lt == gt)
       sim_fail("C08:comparison-not-pointer-equality", "operator< is not a strict order on handles to different objects (a<b=%d b<a=%d)", lt, gt);
   }
   if (op->kind == C08_DSLOT_SET) {
